@@ -287,7 +287,8 @@ func (v *validator) addEndpoints(certIssuer *x509.Certificate, endpoints []strin
 			continue
 		}
 		// TODO: Optimize by starting Go routine per endpoint to update the CRL. A Go routine per CRL prevents all CRLs being updated simultaneously.
-		v.crls.Store(endpoint, newRevocationList(certIssuer))
+		// LoadOrStore: another go routine may have added (and updated) the endpoint since the check above
+		v.crls.LoadOrStore(endpoint, newRevocationList(certIssuer))
 	}
 	return nil
 }
